@@ -1,3 +1,155 @@
-/-! # C02 — property theorems (to be written) -/
+import BddVerif.Lemmas.C02Built
+import BddVerif.Gen.OpTables
+/-!
+# C02 — equal functions have identical Bdds: canonical form through any history
+
+`Canonical A` says that the array `A` is exactly what the reference builder `canon` produces for
+`A`'s own function over `A`'s own variable count (Shannon expansion, HIGH cofactor first,
+find-or-push, the one-node array for the contradiction). It is the library-wide layout: the
+executable test `Drive.isCanon` that every driver applies to the implementation's outputs is
+proved equivalent to it (`check_is_exact`).
+-/
 namespace B.Props.C02
+open B B.C02
+
+/-- **Two canonical Bdds over the same variable count that denote the same function are equal** —
+    hence equal under `==`, with equal hashes, text and bytes (any function of the node vector). -/
+theorem canonical_unique {a b : Arr} (ha : Canonical a) (hb : Canonical b)
+    (hn : numVars a = numVars b) (hf : ∀ v, den a v = den b v) : a = b :=
+  B.canonical_unique ha hb hn hf
+
+theorem canonical_same_observables {α : Type} (obs : Arr → α) {a b : Arr} (ha : Canonical a)
+    (hb : Canonical b) (hn : numVars a = numVars b) (hf : ∀ v, den a v = den b v) : obs a = obs b :=
+  congrArg obs (canonical_unique ha hb hn hf)
+
+/-- **`is_false` / `is_true` are exact**: one node ⇔ contradiction, two nodes ⇔ tautology. -/
+theorem is_false_exact {A : Arr} (h : Canonical A) : A.size = 1 ↔ ∀ v, den A v = false :=
+  h.size_one_iff
+theorem is_true_exact {A : Arr} (h : Canonical A) : A.size = 2 ↔ ∀ v, den A v = true :=
+  h.size_two_iff
+
+/-- **Structure of every canonical Bdd with decision nodes**: reduced and ordered (`Red`: variables
+    below `n`, children stored before parents, distinct children, variables strictly increasing along
+    both links, no duplicate node), the root is the last node (that is how `den` reads it) and every
+    decision node is reachable from the root. -/
+theorem canonical_structure {A : Arr} (h : Canonical A) (hs : 3 ≤ A.size) :
+    Red A (numVars A) ∧ ∀ q, 2 ≤ q → q < A.size → Reach A (root A) q :=
+  h.reach hs
+
+/-- the executable canonicity test applied to observed outputs decides exactly `Canonical` -/
+theorem check_is_exact (A : Arr) : Drive.isCanon A = true ↔ Canonical A := isCanon_iff A
+
+/-- **Binary operators (with or without fused flips) return the canonical form even for merely
+    valid, non-canonical operands** (`WFo`: well formed by level only; so `b.and(true)` canonicalises). -/
+theorem binary_canonicalizes (L R : Arr) (n : Nat) (op : Op2) (c : Bool → Bool → Bool)
+    (fl fr fo : Option Nat) (hL : WFo L n) (hR : WFo R n) (hc : Consistent op c)
+    (hfl : ∀ x, fl = some x → x < n) (hfr : ∀ x, fr = some x → x < n) (hfo : ∀ x, fo = some x → x < n) :
+    Canonical (applyWithFlip L R op fl fr fo) :=
+  applyWithFlip_is_canonical L R n op c fl fr fo hL hR hc hfl hfr hfo
+
+/-- the same for ternary operators -/
+theorem ternary_canonicalizes (A B C : Arr) (n : Nat) (op : Op3) (c : Bool → Bool → Bool → Bool)
+    (fa fb fc fo : Option Nat) (hA : WFo A n) (hB : WFo B n) (hC : WFo C n) (hc : Consistent3 op c)
+    (hfa : ∀ x, fa = some x → x < n) (hfb : ∀ x, fb = some x → x < n) (hfc : ∀ x, fc = some x → x < n) :
+    Canonical (ternaryApply A B C op fa fb fc fo) := by
+  rw [ternaryApply_eq_canon A B C n op c fa fb fc fo hA hB hC hc hfa hfb hfc]
+  exact canon_canonical' _ _
+
+/-- `b.and(true)` is the canonical form of a merely valid `b` and denotes the same function -/
+theorem and_true_canonicalizes (b : Arr) (n : Nat) (hb : WFo b n) :
+    Canonical (applyWithFlip b (mkTrue n) Gen.and_ none none none) ∧
+    ∀ v, den (applyWithFlip b (mkTrue n) Gen.and_ none none none) v = evW b n v (root b) := by
+  have hT : WFo (mkTrue n) n := wfo_of_red (red_mkTrue n) (Prefix.refl _)
+  have hc : Consistent Gen.and_ (fun a b => a && b) := by constructor <;> decide
+  refine ⟨applyWithFlip_is_canonical b (mkTrue n) n _ _ none none none hb hT hc
+    (fun _ h => by cases h) (fun _ h => by cases h) (fun _ h => by cases h), fun v => ?_⟩
+  have := applyWithFlip_den b (mkTrue n) n _ _ none none none hb hT hc
+    (fun _ h => by cases h) (fun _ h => by cases h) (fun _ h => by cases h) v
+  rw [this]
+  have : evW (mkTrue n) n (inv none (inv none v)) (root (mkTrue n)) = true := by
+    show evW (mkTrue n) n _ 1 = true
+    exact evW_one _ _ _
+  rw [this, Bool.and_true]; rfl
+
+/-- `not` maps canonical forms to canonical forms -/
+theorem not_canonical {A : Arr} (h : Canonical A) : Canonical (bddNot A) := by
+  have := bddNot_canon (numVars A) (den A) h.depBelow
+  rw [← h] at this
+  rw [this]
+  exact canon_canonical' _ _
+
+/-! ### Histories: the closure of canonical values under the modelled operations
+
+`Built n a`: `a` is obtained from the constants by any finite sequence of the operations below (each
+constructor is one public operation of the library as modelled). `built_canonical` is the statement
+"whatever sequence of operations produced it, the Bdd is canonical", by induction over the history.
+(Operations whose canonical-form theorem is proved elsewhere — restrict, nested apply, … — are added
+as further constructors in their property files via the same one-step lemma shape.) -/
+inductive Built (n : Nat) : Arr → Prop
+  | mkFalse : Built n (mkFalse n)
+  | mkTrue : Built n (mkTrue n)
+  | canonOf (f : (Nat → Bool) → Bool) : Built n (canon n f)   -- any oracle-built operand
+  | not {a} : Built n a → Built n (bddNot a)
+  | binary {a b} (op : Op2) (c : Bool → Bool → Bool) (fl fr fo : Option Nat) :
+      Built n a → Built n b → Consistent op c →
+      (∀ x, fl = some x → x < n) → (∀ x, fr = some x → x < n) → (∀ x, fo = some x → x < n) →
+      Built n (applyWithFlip a b op fl fr fo)
+  | ternary {a b d} (op : Op3) (c : Bool → Bool → Bool → Bool) (fa fb fc fo : Option Nat) :
+      Built n a → Built n b → Built n d → Consistent3 op c →
+      (∀ x, fa = some x → x < n) → (∀ x, fb = some x → x < n) → (∀ x, fc = some x → x < n) →
+      Built n (ternaryApply a b d op fa fb fc fo)
+
+theorem numVars_canon' (n : Nat) (f : (Nat → Bool) → Bool) : numVars (canon n f) = n := by
+  rw [canon_restrict]; exact numVars_canon n _ (depBelow_restr n f)
+
+theorem built_canonical {n : Nat} {a : Arr} (h : Built n a) : Canonical a ∧ numVars a = n := by
+  induction h with
+  | mkFalse => exact ⟨canonical_mkFalse n, rfl⟩
+  | mkTrue => exact ⟨canonical_mkTrue n, rfl⟩
+  | canonOf f => exact ⟨canon_canonical' n f, numVars_canon' n f⟩
+  | not _ ih =>
+    obtain ⟨hc, hn⟩ := ih
+    refine ⟨not_canonical hc, ?_⟩
+    have := bddNot_canon (numVars _) (den _) hc.depBelow
+    rw [← hc] at this
+    rw [this, numVars_canon', hn]
+  | binary op c fl fr fo _ _ hcons hfl hfr hfo iha ihb =>
+    obtain ⟨ha, hna⟩ := iha; obtain ⟨hb, hnb⟩ := ihb
+    have hwa := Canonical.wfo ha; rw [hna] at hwa
+    have hwb := Canonical.wfo hb; rw [hnb] at hwb
+    refine ⟨applyWithFlip_is_canonical _ _ n op c fl fr fo hwa hwb hcons hfl hfr hfo, ?_⟩
+    rw [applyWithFlip_eq_canon _ _ n op c fl fr fo hwa hwb (numVars_of_wf hwa) hcons hfl hfr hfo]
+    exact numVars_canon' _ _
+  | ternary op c fa fb fc fo _ _ _ hcons hfa hfb hfc iha ihb ihd =>
+    obtain ⟨ha, hna⟩ := iha; obtain ⟨hb, hnb⟩ := ihb; obtain ⟨hd, hnd⟩ := ihd
+    have hwa := Canonical.wfo ha; rw [hna] at hwa
+    have hwb := Canonical.wfo hb; rw [hnb] at hwb
+    have hwd := Canonical.wfo hd; rw [hnd] at hwd
+    rw [ternaryApply_eq_canon _ _ _ n op c fa fb fc fo hwa hwb hwd hcons hfa hfb hfc]
+    exact ⟨canon_canonical' _ _, numVars_canon' _ _⟩
+
+/-- **Any two results of any two histories with the same truth table are the same Bdd.** -/
+theorem built_unique {n : Nat} {a b : Arr} (ha : Built n a) (hb : Built n b)
+    (hf : ∀ v, den a v = den b v) : a = b := by
+  obtain ⟨ca, na⟩ := built_canonical ha
+  obtain ⟨cb, nb⟩ := built_canonical hb
+  exact canonical_unique ca cb (by rw [na, nb]) hf
+
+/-! ### Non-vacuity -/
+example : Built 3 (applyWithFlip (bddNot (canon 3 (fun v => v 0 && v 2))) (mkTrue 3) Gen.and_ none (some 1) none) :=
+  Built.binary Gen.and_ (fun a b => a && b) none (some 1) none (Built.not (Built.canonOf _)) Built.mkTrue
+    (by constructor <;> decide) (by simp) (by simp) (by simp)
+
+/-- x0 ∧ x2 over three variables (the root skips level 1) is canonical … -/
+example : Canonical (#[⟨3, 0, 0⟩, ⟨3, 1, 1⟩, ⟨2, 0, 1⟩, ⟨0, 0, 2⟩] : Arr) := by
+  show _ = canon 3 _; decide
+/-- … a reduced array with an unreachable node is not, -/
+example : ¬ Canonical (#[⟨2, 0, 0⟩, ⟨2, 1, 1⟩, ⟨1, 0, 1⟩, ⟨0, 0, 1⟩] : Arr) := by
+  show ¬ (_ = canon 2 _); decide
+/-- … and neither is the low-first layout of (x0 ∧ x1) ∨ (¬x0 ∧ x2) (the layout `restrict` used to produce). -/
+example : ¬ Canonical (#[⟨3, 0, 0⟩, ⟨3, 1, 1⟩, ⟨2, 0, 1⟩, ⟨1, 0, 1⟩, ⟨0, 2, 3⟩] : Arr) := by
+  show ¬ (_ = canon 3 _); decide
+example : Canonical (#[⟨3, 0, 0⟩, ⟨3, 1, 1⟩, ⟨1, 0, 1⟩, ⟨2, 0, 1⟩, ⟨0, 3, 2⟩] : Arr) := by
+  show _ = canon 3 _; decide
+
 end B.Props.C02
